@@ -395,7 +395,7 @@ func TestC17(t *testing.T) {
 		return
 	}
 
-	rt.Check(t, rec, "sequential", 5000, 40000, func(t *rapid.T) {
+	rt.Check(t, rec, "sequential", 5000, 30000, func(t *rapid.T) {
 		pq := queue.NewPriorityQueue()
 		var model []qel
 		ntran := 1 + gen.Uniform(t, "ntran", 5)
@@ -475,7 +475,7 @@ func TestC17(t *testing.T) {
 	})
 
 	histN := 0
-	rt.Check(t, rec, "concurrent", 300, 5000, func(t *rapid.T) {
+	rt.Check(t, rec, "concurrent", 300, 600, func(t *rapid.T) {
 		nprod := 2 + gen.Uniform(t, "nprod", 7)
 		scripts := make([][]qmsg, nprod)
 		sharedPct := gen.Pick(t, "sharedPct", []int{0, 10, 30})
